@@ -55,6 +55,9 @@ def streams(tier, rng, P, only=None, cases=None):
             cs.append(dict(req="run " + hx(src), src=src, show=src, key="src%d" % i, expect_tb=tb))
         for j, src in enumerate(mml.sample_sources()):
             cs.append(dict(req="run " + hx(src), src=src, show=src[:200], key="sample%d" % j, expect_tb=None))
+        # chunk bodies longer than 16 bits can say (every byte of the 32-bit length field matters)
+        for j, src in enumerate(["l16 [9 [1000 c]]", "l16 [40 [1000 c]] TR=2 c"] + (["l16 [300 [1000 c]]", "l16 [9 [1000 c]] TR(3) l16 [33 [1000 d]]"] if big else [])):
+            cs.append(dict(req="run " + hx(src), src=src, show=src, key="bigchunk%d" % j, expect_tb=96))
         # track numbers at and beyond what the header's 16-bit count can say (the count must still equal the number of chunks)
         for j, src in enumerate(["TR=65535 c", "TR(65534) c TR=70000 d", "TR=65536 c TR(3) d"] + (["Track(100000) c", "TR=65534 c", "TR(131071) c"] if big else [])):
             cs.append(dict(req="run " + hx(src), src=src, show=src, key="bigtr%d" % j, expect_tb=96))
